@@ -37,6 +37,16 @@ def operand(g, rng, kind, val):
         return ("if", ("const", ("bool", False)), ("const", ("int", 9)), ("do", [("log", g.fresh_k(), ("const", ("none",))), ("const", val)]))
     if kind == "not":
         return ("not", ("log", g.fresh_k(), ("const", ("bool", not cc_truthy(val)))))
+    # value-less statement operands: the operand's own value is None whatever `val` is
+    if kind == "setv":
+        return ("setv", rng.randrange(cc.NVARS), ("log", g.fresh_k(), ("const", val)))
+    if kind == "dosetv":
+        return ("do", [("log", g.fresh_k(), ("const", val)), ("setv", rng.randrange(cc.NVARS), ("const", val))])
+    if kind == "while":
+        a = cc.NVARS + g.loopvar
+        g.loopvar += 1
+        return ("do", [("setv", a, ("const", ("bool", True))),
+                       ("while", ("var", a), [("setv", a, ("const", ("bool", False))), ("log", g.fresh_k(), ("const", val))], None)])
     raise AssertionError(kind)
 
 
@@ -47,6 +57,7 @@ def cc_truthy(v):
 TRUTHY = [("int", 7), ("bool", True), ("int", -3)]
 FALSY = [("int", 0), ("bool", False), ("none",)]
 KINDS = ["const", "log", "stmt", "if", "ifstmt"]
+VALUELESS = ["setv", "dosetv", "while"]      # statement-producing operands without a value: they evaluate to None (falsy)
 
 
 def run(chk):
@@ -58,21 +69,46 @@ def run(chk):
     thorough = chk.tier == "thorough"
     g = cc.Gen(rng, [])
     progs = []
+
+    def kinds_for(tv):
+        return KINDS if tv else KINDS + VALUELESS
     # every arity 0..N, every truth assignment, operand kinds chosen per slot (thorough: all kind tuples up to arity 3)
     max_exh = 4 if thorough else 3
     for isand in (True, False):
         for n in range(0, max_exh + 1):
             for truth in itertools.product([True, False], repeat=n):
-                kind_choices = itertools.product(KINDS, repeat=n) if (thorough and n <= 3) else \
-                    [tuple(rng.choice(KINDS) for _ in range(n)) for _ in range(3 if n else 1)]
+                kind_choices = itertools.product(*[kinds_for(tv) for tv in truth]) if (thorough and n <= 3) else \
+                    [tuple(rng.choice(kinds_for(tv)) for tv in truth) for _ in range(3 if n else 1)]
                 for ks in kind_choices:
                     g.k = 0
+                    g.loopvar = 0
                     ops = [operand(g, rng, k, rng.choice(TRUTHY if tv else FALSY)) for k, tv in zip(ks, truth)]
                     progs.append(cc.dress(rng, ("bool", isand, ops), fault_p=0.25))
                     chk.count("exhaustive-truth arity %d" % n)
+    # a value-less statement operand (setv / do ending in setv / while) that is REACHED in every position but the
+    # first (earlier operands truthy for and, falsy for or), followed by plain or statement-producing operands of
+    # either truth: its value None is the result of `and`, and of `or` when it comes last
+    for isand in (True, False):
+        for n in range(2, 6 if thorough else 5):
+            for pos in range(1, n):
+                for vk in VALUELESS:
+                    for variant in range(3 if thorough else 2):
+                        g.k = 0
+                        g.loopvar = 0
+                        ops = []
+                        for i in range(n):
+                            if i == pos:
+                                ops.append(operand(g, rng, vk, rng.choice(TRUTHY + FALSY)))
+                            elif i < pos:
+                                ops.append(operand(g, rng, rng.choice(KINDS), rng.choice(TRUTHY if isand else FALSY)))
+                            else:
+                                ops.append(operand(g, rng, rng.choice(KINDS + VALUELESS), rng.choice(TRUTHY + FALSY)))
+                        progs.append(cc.dress(rng, ("bool", isand, ops), fault_p=0.15))
+                        chk.count("value-less operand reached at position %d of %d" % (pos, n))
     # larger arities and nested and/or, sampled
-    for _ in range(2500 if thorough else 500):
+    for _ in range(2500 if thorough else 420):
         g.k = 0
+        g.loopvar = 0
         n = rng.randrange(2, 9)
         ops = []
         for _i in range(n):
@@ -85,11 +121,12 @@ def run(chk):
             elif r < 0.4:
                 ops.append(("var", rng.randrange(cc.NVARS)))
             else:
-                ops.append(operand(g, rng, rng.choice(KINDS + ["not"]), rng.choice(TRUTHY + FALSY)))
+                ops.append(operand(g, rng, rng.choice(KINDS + ["not"] + VALUELESS), rng.choice(TRUTHY + FALSY)))
         progs.append(cc.dress(rng, ("bool", rng.random() < 0.5, ops), fault_p=0.3))
         chk.count("sampled arity %d" % n)
     chk.rule = ("(and ...)/(or ...) forms: every arity 0..%d x every truth assignment x operand kinds {constant, effectful call, "
-                "do-block needing statements, if expression, if needing statements} (thorough: all kind tuples up to arity 3), "
-                "plus sampled arities 2..8 with nested and/or, not, variables; a fault table makes some effect points raise; "
+                "do-block needing statements, if expression, if needing statements; for falsy slots also the value-less statements "
+                "setv, do ending in setv, while} (thorough: all kind tuples up to arity 3), a value-less statement operand reached "
+                "in every non-first position of arities 2..4, plus sampled arities 2..8 with nested and/or, not, variables; a fault table makes some effect points raise; "
                 "non-trivial = distinct program of size >= 4" % max_exh)
     cc.differential(chk, progs)
